@@ -29,6 +29,27 @@ Theorem C20_best_is_argmin : forall s i h,
 Proof. exact best_is_argmin. Qed.
 Print Assumptions C20_best_is_argmin.
 
+(* optim_flat around the loop: with a validation model the loop ends at the first index at which the
+   documented rule fires; without one it runs to max_iter - 1; in both cases iteration_best is the first
+   minimiser of the (validation) loss within the final window of the USER's patience, and the returned
+   position is the one recorded at iteration_best (restore_best_position) or at the last iteration *)
+Theorem C20_optim_flat_spec : forall s hv restore loss,
+  (1 <= patience s)%nat -> (patience s <= max_iter s)%nat ->
+  exists (j b : nat),
+    optim_flat_model s hv restore loss
+      = Some (mkOut j (Z.of_nat b) (if restore then Z.of_nat b else Z.of_nat j) (hist_at s loss j))
+    /\ (j < max_iter s)%nat
+    /\ (hv = false -> j = (max_iter s - 1)%nat)
+    /\ (hv = true -> rule s j (hist_at s loss j) = true
+                     /\ forall k, (k < j)%nat -> rule s k (hist_at s loss k) = false)
+    /\ (j + 1 - patience s <= b <= j)%nat
+    /\ (forall k, (j + 1 - patience s <= k <= j)%nat ->
+          (nth b (hist_at s loss j) 0%Q <= nth k (hist_at s loss j) 0%Q)%Q)
+    /\ (forall k, (j + 1 - patience s <= k < b)%nat ->
+          (nth b (hist_at s loss j) 0%Q < nth k (hist_at s loss j) 0%Q)%Q).
+Proof. exact optim_flat_spec. Qed.
+Print Assumptions C20_optim_flat_spec.
+
 Theorem C20_history_shape : forall prune h i, (i < length h)%nat ->
   let r := post_history prune h i in
   (length r = if prune then S i else length h)
